@@ -200,21 +200,19 @@ class PiecewiseConstantBirthDeath(Distribution):
     def log_q(self, A, B, t, t_i):
         """Probability density of lineage alive between time t and t_i gives
         rise to observed clade."""
-        e = torch.exp(-A * (t - t_i))
-        return torch.log(
-            4.0
-            * e
-            / torch.pow(
-                e * (1.0 + B) + (1.0 - B),
-                2,
-            )
-        )
+        # t lies in the epoch that ends at t_i: a >= 0 and exp(-a) cannot overflow
+        # log(4 e^a / (e^a (1+B) + (1-B))^2) = log(4 / ((1+B) + (1-B) e^-a)^2) - a
+        a = A * (t_i - t)
+        e = torch.exp(-a)
+        return torch.log(4.0 / torch.pow((1.0 + B) + (1.0 - B) * e, 2)) - a
 
     def p0(self, lambda_, mu, psi, A, B, t, t_i):
-        term = torch.exp(A * (t - t_i)) * (1.0 + B)
-        one_minus_Bi = 1.0 - B
+        # same quantity as before with numerator and denominator divided by
+        # exp(A (t - t_i)) >= 1, which overflows for fast rates over long epochs
+        one_plus_Bi = 1.0 + B
+        term = torch.exp(-A * (t - t_i)) * (1.0 - B)
         return (
-            lambda_ + mu + psi - A * (term - one_minus_Bi) / (term + one_minus_Bi)
+            lambda_ + mu + psi - A * (one_plus_Bi - term) / (one_plus_Bi + term)
         ) / (2.0 * lambda_)
 
     def log_p(self, t, t_i, rho):
@@ -229,7 +227,8 @@ class PiecewiseConstantBirthDeath(Distribution):
         )
         B = torch.zeros_like(self.mu, dtype=self.mu.dtype)
         p = torch.ones(self.mu.shape[:-1] + (m + 1,), dtype=self.mu.dtype)
-        exp_A_term = torch.exp(A * (t - t_i))
+        # exp(-A dt) <= 1: exp(A dt) overflows for fast rates over long epochs
+        exp_neg_A_term = torch.exp(-A * (t - t_i))
         inv_2lambda = 1.0 / (2.0 * self.lambda_)
 
         for i in torch.arange(m - 1, -1, step=-1):
@@ -239,11 +238,11 @@ class PiecewiseConstantBirthDeath(Distribution):
                 + self.mu[..., i]
                 + self.psi[..., i]
             ) / A[..., i]
-            term = exp_A_term[..., i] * (1.0 + B[..., i])
-            one_minus_Bi = 1.0 - B[..., i]
+            one_plus_Bi = 1.0 + B[..., i]
+            term = exp_neg_A_term[..., i] * (1.0 - B[..., i])
             p[..., i] *= (
                 sum_term[..., i]
-                - A[..., i] * (term - one_minus_Bi) / (term + one_minus_Bi)
+                - A[..., i] * (one_plus_Bi - term) / (one_plus_Bi + term)
             ) * inv_2lambda[..., i]
         return p, A, B
 
